@@ -61,6 +61,19 @@ def program_case(ctx, case):
             ctx.sample({"source": src, "bytes": data.hex()[:160]})
         if not validate_bytes(ctx, data, src, case, str(case.note).split(":")[0] or "program"):
             return
+        # writing the same module object a second time yields the same (valid) image
+        try:
+            again = adapter.wasm_bytes(c.result)
+        except Exception as e:
+            ctx.fail("second-write|exception|" + type(e).__name__, "WriteTo works once and raises %r the second time\n%s" % (e, src), case)
+            return
+        if again != data:
+            ctx.label("second-write-differs")
+            if not validate_bytes(ctx, again, "SECOND WriteTo of the same module object:\n" + src, case, "second-write"):
+                return
+            ctx.fail("second-write|differs", "two WriteTo calls on one module object give different bytes (%d vs %d)\n%s" % (
+                len(data), len(again), src), case)
+            return
 
 
 # -- modules built through the writer API ---------------------------------------------------------
